@@ -160,7 +160,7 @@
           conditionString += StringFrom(first); conditionString += " ";\
           conditionString += #relop; conditionString += " ";\
           conditionString += StringFrom(second);\
-          UtestShell::getCurrent()->assertCompare(false, "CHECK_COMPARE", conditionString.asCharString(), text, __FILE__, __LINE__);\
+          UtestShell::getCurrent()->assertCompare(false, "CHECK_COMPARE", conditionString.asCharString(), text, file, line);\
       }\
  } while(0)
 
